@@ -171,19 +171,28 @@ def _non_test(text):
 def state_shape():
     """returns {"holders": [...], "unmodelled": [...], "gone": [...], "model_fields_missing": [...]}"""
     holders = []
-    for f in sorted(os.listdir(SRC)):
-        if not f.endswith(".rs"): continue
-        s = _non_test(open(os.path.join(SRC, f)).read())
+    texts = {f: _non_test(open(os.path.join(SRC, f)).read()) for f in sorted(os.listdir(SRC)) if f.endswith(".rs")}
+    # names that stand for an interior-mutable type: `type X = ..Cell<..>..;` and `use ..::Cell as X;` (to a fixpoint)
+    extra = set()
+    for _ in range(4):
+        pat = re.compile(_INTERIOR.pattern + "".join(r"|\b%s\b" % re.escape(x) for x in sorted(extra)))
+        for s in texts.values():
+            for m in re.finditer(r"\btype\s+(\w+)\s*(?:<[^=]*>)?\s*=\s*([^;]+);", s):
+                if pat.search(m.group(2)): extra.add(m.group(1))
+            for m in re.finditer(r"\buse\s+[^;]*?\b(\w+)\s+as\s+(\w+)", s):
+                if pat.search(m.group(1)): extra.add(m.group(2))
+    interior = re.compile(_INTERIOR.pattern + "".join(r"|\b%s\b" % re.escape(x) for x in sorted(extra)))
+    for f, s in texts.items():
         for m in re.finditer(r"\bstruct\s+(\w+)\s*(?:<[^>{]*>)?\s*(?:where[^{]*)?\{(.*?)\n\}", s, re.S):
             name, body = m.group(1), m.group(2)
             for line in body.split("\n"):
                 fm = re.match(r"\s*(?:pub(?:\([^)]*\))?\s+)?(\w+)\s*:\s*(.+?),?\s*$", line)
                 if not fm: continue
                 ty = fm.group(2).replace(" ", "")
-                if _INTERIOR.search(ty): holders.append("%s:%s.%s:%s" % (f, name, fm.group(1), ty))
+                if interior.search(ty): holders.append("%s:%s.%s:%s" % (f, name, fm.group(1), ty))
         for m in re.finditer(r"^\s*(?:pub(?:\([^)]*\))?\s+)?static\s+(mut\s+)?(\w+)\s*:\s*([^=;]+)", s, re.M):
             ty = m.group(3).strip().replace(" ", "")
-            if m.group(1) or _INTERIOR.search(ty): holders.append("%s:static %s:%s" % (f, m.group(2), ty))
+            if m.group(1) or interior.search(ty): holders.append("%s:static %s:%s" % (f, m.group(2), ty))
         for m in re.finditer(r"\bthread_local!", s): holders.append("%s:thread_local!" % f)
         for k, m in enumerate(re.finditer(r"\bunsafe\b", s)): holders.append("%s:unsafe#%d" % (f, k))
     rec = re.search(r"Record ctx := \{(.*?)\}\.", open(os.path.join(ROOT, "coq", "Process.v")).read(), re.S)
@@ -192,6 +201,22 @@ def state_shape():
             "unmodelled": sorted(h for h in holders if h not in MODELLED_STATE),
             "gone": sorted(h for h in MODELLED_STATE if h not in holders),
             "model_fields_missing": sorted(v for v in MODELLED_STATE.values() if v not in fields)}
+
+def source_consts():
+    """byte-array literals of /repo's current sources (test code included: test vectors are good seeds), 2..64 bytes"""
+    out, seen = [], set()
+    for f in sorted(os.listdir(SRC)):
+        if not f.endswith(".rs"): continue
+        s = strip_comments(open(os.path.join(SRC, f)).read())
+        for m in re.finditer(r"\[((?:\s*(?:0x[0-9a-fA-F_]+|0b[01_]+|\d+)(?:u8)?\s*,)+\s*(?:(?:0x[0-9a-fA-F_]+|0b[01_]+|\d+)(?:u8)?)?\s*)\]", s):
+            vals = []
+            for x in re.findall(r"0x[0-9a-fA-F_]+|0b[01_]+|\d+", m.group(1)):
+                try: vals.append(int(x.replace("_", ""), 0))
+                except ValueError: vals = [999]; break
+            if 2 <= len(vals) <= 64 and all(v <= 255 for v in vals):
+                b = bytes(vals)
+                if b not in seen: seen.add(b); out.append(b)
+    return out
 
 def fuzz_dict():
     """libFuzzer dictionary harvested from /repo's current non-test sources"""
@@ -211,6 +236,8 @@ def fuzz_dict():
             elif v <= 0xFFFFFFFF: ents += [v.to_bytes(4, "big"), v.to_bytes(4, "little")]
         for k in range(len(small) - 1): ents.append(bytes(small[k:k + 2]))
         for k in range(len(small) - 2): ents.append(bytes(small[k:k + 3]))
+    try: ents = source_consts() + ents
+    except Exception: pass
     seen, out = set(), []
     for e in ents:
         if e not in seen:
